@@ -96,7 +96,7 @@ PROPS = {
     "C02": {
         "jobs": [OBJ_CALLS],
         "accept": lambda job, cls, site, msg: cls in ("obj.args_altered", "obj.address_mismatch")
-        or (cls == "obj.result_mismatch" and (site.startswith(("s_", "r_")) or "::s_" in site or "::r_" in site)),
+        or (cls == "obj.result_mismatch" and (site.startswith(("s_", "r_", "ir_", "ira_")) or "::s_" in site or "::r_" in site or "::ir" in site)),
         "real": OBJ_REAL, "stub": OBJ_STUB, "assumptions": OBJ_ASSUME + ["honest caveat (DESIGN.md section 3/C02): this property is about values; it is claimed because the call histories carry every auto-wrapped shape across the boundary with stateful callee-side digests and address logs"],
     },
     "C06": {
@@ -113,7 +113,7 @@ PROPS = {
     "C08": {
         "jobs": [OBJ_CASTS],
         "accept": lambda job, cls, site, msg: cls.startswith("cast.") or ("!(" in site and cls.startswith("obj.")) or cls.startswith("crash.") or cls == "layout.optional_words",
-        "real": OBJ_REAL, "stub": OBJ_STUB, "assumptions": OBJ_ASSUME + ["the property asks for exhaustive enumeration of a finite matrix; this family samples, and reports the matrix cells (group x enabled set x requested set x operation x container) actually hit: 2560 exist for the corpus groups"],
+        "real": OBJ_REAL, "stub": OBJ_STUB, "assumptions": OBJ_ASSUME + ["the property asks for exhaustive enumeration of a finite matrix; this family samples, and reports the matrix cells (group x enabled set x requested set x operation x container) actually hit: 2680 exist for the corpus groups"],
     },
     "C13": {
         "jobs": [OBJ_INTRES, INTRES],
@@ -121,6 +121,28 @@ PROPS = {
         "real": OBJ_REAL + ["cglue::result (IntError impls, into_int_out_result, from_int_result)"], "stub": OBJ_STUB, "assumptions": OBJ_ASSUME,
     },
 }
+
+
+def _miri(specs):
+    def ph(prop, tier, seed, report):
+        import miri
+        return miri.phase(prop, tier, seed, report, specs, PROPS[prop].get("accept"))
+    return ph
+
+
+PROPS["C10"]["extra_phases"] = [_miri([
+    {"package": "primsim", "engine": "arc", "free": True, "plans": 48, "seeds": 64},
+    {"package": "primsim", "engine": "arc", "free": False, "plans": 300, "seeds": 1},
+])]
+PROPS["C19"]["extra_phases"] = [_miri([
+    {"package": "primsim", "engine": "waker", "free": True, "plans": 48, "seeds": 64},
+    {"package": "primsim", "engine": "waker", "free": False, "plans": 300, "seeds": 1},
+])]
+PROPS["C11"]["extra_phases"] = [_miri([{"package": "primsim", "engine": "vec", "free": False, "plans": 300, "seeds": 1}])]
+PROPS["C14"]["extra_phases"] = [_miri([{"package": "primsim", "engine": "cstr", "free": False, "plans": 300, "seeds": 1}])]
+PROPS["C15"]["extra_phases"] = [_miri([{"package": "primsim", "engine": "feed", "free": False, "plans": 300, "seeds": 1}])]
+PROPS["C13"]["extra_phases"] = [_miri([{"package": "primsim", "engine": "intres", "free": False, "plans": 300, "seeds": 1}])]
+PROPS["C06"]["extra_phases"] = [_miri([{"package": "primsim", "engine": "cbox", "free": False, "plans": 300, "seeds": 1}])]
 
 
 def _phase_bindgen(prop, tier, seed, report):
@@ -138,6 +160,27 @@ PROPS["C18"] = {
 }
 
 
+def _phase_expander(prop, tier, seed, report):
+    import gensim
+    return gensim.phase_expander(prop, tier, seed, report)
+
+
+OBJ_LAYOUT = OBJ("casts", 8000, 300000)
+OBJ_LAYOUT.label = "obj-layout"
+ALL_JOBS.append(OBJ_LAYOUT)
+PROPS["C04"] = {
+    "jobs": [OBJ_LAYOUT],
+    "extra_phases": [_phase_expander],
+    "accept": lambda job, cls, site, msg: cls.startswith("layout."),
+    "rule": "expander part: one evaluation = one run of the real expander (cglue-gen as a library) over the corpus definitions under one process hash seed or one permutation of the trait listing order, its layout projection (repr(C) structs with field names and types in order, vtable default initialisers) compared with the reference; object part: one evaluation = one generated plan whose created group objects are read as raw words",
+    "real": ["cglue-gen (gen_trait, TraitGroup::create_group, TraitGroupImpl::implement_group) linked from /repo and run as a process", "generated group objects read as raw words (objsim)"],
+    "stub": ["getrandom (shim: hash seed = f(SIMRAND_SEED))"],
+    "assumptions": COMMON_ASSUMPTIONS + ["the projection is deliberately narrower than token-stream equality: the expander legitimately emits items and impl generics in hash order, which changes no layout",
+                                         "the 'both sides of a plugin boundary' clause needs the separately compiled module of C05 and is not covered here",
+                                         "size/align/bit-pattern equality of opaque and concrete forms is only covered through the objects behaving correctly after into_opaque (C01/C06), not by a direct byte comparison"],
+}
+
+
 def job_for(package, engine, label=None, extra_args=None):
     for j in ALL_JOBS:
         if j.package == package and j.engine == engine and (label is None or j.label == label):
@@ -149,6 +192,7 @@ def build_all():
     for pkg in sorted(set(j.package for j in ALL_JOBS)):
         cargo_build(pkg, False)
     cargo_build("primsim", True)
+    cargo_build("expsim", False)
     import gensim
     gensim.build_shim()
     gensim.build_bindgen()
@@ -158,4 +202,10 @@ def replay_special(prop, doc, path):
     if doc.get("kind") == "bindgen":
         import gensim
         return gensim.replay_bindgen(prop, doc, path)
+    if doc.get("kind") == "miri":
+        import miri
+        return miri.replay(prop, doc, path)
+    if doc.get("kind") == "expander":
+        import gensim
+        return gensim.replay_expander(prop, doc, path)
     raise NotImplementedError(doc.get("kind"))
